@@ -24,6 +24,7 @@ UNITS = [
     "src/geocel/BoundingBoxIO.json.cc",
     "src/orange/surf/SurfaceIO.cc",
     "src/orange/transform/TransformIO.cc",
+    "src/orange/transform/Transformation.cc",
     "src/corecel/io/Label.cc",
 ]
 
@@ -386,15 +387,19 @@ def run(db, cx):
         for br in f.branch_blocks(lambda c, _b: c.get("op") == "==" and c.get("rlit") is not None
                                   and any(x.endswith("::size") for x in c.get("lcalls", []))):
             c = f.blocks[br]["cond"]
-            tgt = f.blocks[br]["succ"][f.cond_polarity_edge(br, True)]
+            te = f.cond_polarity_edge(br, True)
+            tgt, other = f.blocks[br]["succ"][te], f.blocks[br]["succ"][1 - te]
             if tgt is None:
                 continue
-            for e in f.blocks[tgt]["ev"]:
-                if e["e"] == "return":
-                    for cal in e.get("calls", []):
-                        m = re.match(r"celeritas::(NoTransformation|Translation|Transformation|SignedPermutation)::", cal)
-                        if m:
-                            arms[m.group(1)] = int(c["rlit"])
+            # the arm: what is reachable on the true edge only
+            region = f.reach([tgt]) - (f.reach([other]) if other is not None else set())
+            for blk in sorted(region):
+                for e in f.blocks[blk]["ev"]:
+                    if e["e"] == "return":
+                        for cal in e.get("calls", []):
+                            m = re.match(r"celeritas::(NoTransformation|Translation|Transformation|SignedPermutation)::\1$", cal)
+                            if m:
+                                arms[m.group(1)] = int(c["rlit"])
     cx.floor("import_transform arms", len(arms), 3)
     for t, nlen in sorted(arms.items()):
         src.append("static_assert(%s::StorageSpan::extent == %d, \"W:extent-%s\");" % (t, nlen, t))
@@ -416,6 +421,8 @@ def run(db, cx):
           "variant-arms" not in failed, "%d arms" % len(arms),
           "src/orange/detail/OrangeInputIOImpl.json.cc",
           why="an alternative without an arm can be written but not read")
+    transform_layout(db, cx, arms)
+
     # universe type tags
     written_tags = set()
     for rec in ("UnitInput", "RectArrayInput"):
@@ -434,3 +441,157 @@ def run(db, cx):
         cx.ob("C19.5-variants", "universe tag \"%s\" written for %s is accepted by the reader" % (tag, rec),
               tag in accepted, "accepted: %s" % sorted(accepted), "src/orange/OrangeInputIO.json.cc",
               why="an unknown tag aborts reading the whole geometry")
+
+
+def transform_layout(db, cx, arms):
+    """C19.5-transform-layout (A6, lib/polyinterp.py): the writer emits T::data(), the contiguous
+    storage of T's members in declaration order; the reader arm of import_transform for that
+    length rebuilds T from the array.  With the array elements as symbols d0..dN-1, the arm is
+    interpreted (whatever constructor it uses, member initialisers included) and the storage of
+    the object it returns, flattened the way data() reads it, must be d0..dN-1 again."""
+    from polyinterp import Poly, Interp, Return, as_poly
+    from astutil import walk, strip
+    rule = "C19.5-transform-layout"
+    src = "src/orange/detail/OrangeInputIOImpl.json.cc"
+    # writer: every visitor instance pushes the elements of data() in order
+    lam = [f for nm in db.find(r"^celeritas::detail::export_transform::\(lambda") for f in db.get(nm)]
+    cx.floor("export_transform visitor instances", len(lam), 3)
+    for f in lam:
+        t = f.inst.split("<")[-1].replace("const ", "").replace("&", "").replace(">", "").strip().split("::")[-1]
+        dcalls = [ev for (_b, _i, ev) in f.events("call") if re.match(r"celeritas::\w+::data$", ev["callee"])]
+        pushes = [ev for (_b, _i, ev) in f.events("call") if ev["callee"].endswith("basic_json::push_back")]
+        loopvar = None
+        for (_b, _i, ev) in f.events("def"):
+            if "__range" in ev.get("var", "") and any(c.endswith("::data") for c in ev.get("calls", [])):
+                loopvar = ev["var"]
+        elems = set(ev["var"] for (_b, _i, ev) in f.events("def") if ev.get("rhs", "").startswith("*__begin"))
+        ok = len(dcalls) == 1 and len(pushes) == 1 and loopvar is not None and \
+            all(len(p.get("args", [])) == 1 and p["args"][0].get("refs")
+                and set(p["args"][0]["refs"]) <= elems
+                and not any(ch in p["args"][0].get("t", "") for ch in "+-*/") for p in pushes)
+        cx.ob(rule, "export_transform<%s> writes exactly the elements of data(), in order" % t, ok,
+              "data() calls=%d push_back=%s" % (len(dcalls), [p["args"][0].get("t") for p in pushes]),
+              short(f.loc), why="the reader rebuilds the transform from this array alone")
+
+    def syms(n):
+        return [Poly.sym("d%d" % k) for k in range(n)]
+
+    def flatten(v):
+        out = []
+        if isinstance(v, list):
+            for x in v:
+                out.extend(flatten(x))
+        else:
+            out.append(v)
+        return out
+
+    def ctor_members(tname, args):
+        """members (declaration order) after T::T(args), from the written member initialisers"""
+        cands = [f for f in db.get(C + "%s::%s" % (tname, tname)) if f.r.get("inits") is not None
+                 and len(f.r["params"]) == len(args)]
+        if len(args) == 1:
+            want_span = isinstance(args[0], list) and not any(isinstance(x, list) for x in args[0]) \
+                and len(args[0]) > 3
+            c2 = [f for f in cands if ("Span<" in f.r["params"][0]["cty"]) == want_span]
+            if tname == "Translation":
+                # Translation(Real3 const&) and Translation(StorageSpan) both take 3 numbers
+                c2 = [f for f in cands if "Span<" in f.r["params"][0]["cty"]] or cands
+            cands = c2
+        if not cands:
+            raise OutOfVocabulary("no %s constructor with written initialisers for %d argument(s)"
+                                  % (tname, len(args)))
+        f = cands[0]
+        it = Interp(f, {})
+        for p, a in zip(f.r["params"], args):
+            it.env[p["n"]] = a
+        out = []
+        for ini in f.r["inits"]:
+            v = it.ev(ini["init"])
+            if isinstance(v, tuple) and v[0] == "construct" and len(v[2]) == 1:
+                v = v[2][0]
+            out.append((ini["member"], v))
+        return out, f
+
+    from astutil import OutOfVocabulary
+    fs = db.get(C + "detail::import_transform")
+    cx.require(fs and fs[0].r.get("ast"), "import_transform AST not extracted")
+    f = fs[0]
+    # the if / else-if chain on data.size()
+    chain = {}
+    for n in walk(f.r["ast"]):
+        if n.get("k") != "IfStmt":
+            continue
+        kids = [c for c in n["c"] if c is not None]
+        cond = strip(kids[0])
+        if cond.get("k") == "BinaryOperator" and cond.get("op") == "==":
+            lit = [c for c in walk(cond["c"][1]) if "cval" in c or c.get("k") == "IntegerLiteral"]
+            if lit and any(c.get("callee", "").endswith("::size") for c in walk(cond["c"][0])):
+                chain[int(lit[0].get("cval", lit[0].get("val")))] = kids[1]
+    done = 0
+    for t, nlen in sorted(arms.items()):
+        if nlen == 0:
+            continue
+        cx.require(nlen in chain, "import_transform: arm for length %d not found in the AST" % nlen)
+        it = Interp(f, {C + "make_span": lambda a: a[0]})
+        it.env["data"] = syms(nlen)
+        try:
+            try:
+                it.run(chain[nlen])
+                val = None
+            except Return as r:
+                val = r.v
+            while isinstance(val, tuple) and val[0] == "construct" and val[1].endswith("variant::variant"):
+                val = val[2][0]
+            cx.require(isinstance(val, tuple) and val[0] == "construct"
+                       and val[1] == C + "%s::%s" % (t, t),
+                       "import_transform arm %d does not return a %s: %r" % (nlen, t, val))
+            args = []
+            for a in val[2]:
+                while isinstance(a, tuple) and a[0] == "construct" and a[1].endswith("Span::Span") \
+                        and len(a[2]) == 1:
+                    a = a[2][0]
+                args.append(a)
+            members, ctor = ctor_members(t, args)
+        except OutOfVocabulary as e:
+            raise AnalysisBroken("C19.5-transform-layout: %s arm of import_transform is outside the "
+                                 "interpreter's vocabulary: %s" % (t, e))
+        flat = flatten([v for (_m, v) in members])
+        want = syms(nlen)
+        ok = len(flat) == nlen and all(as_poly(a) == b for a, b in zip(flat, want))
+        bad = ["storage[%d] <- %r" % (k, a) for k, (a, b) in enumerate(zip(flat, want)) if not (as_poly(a) == b)]
+        done += 1
+        cx.ob(rule, "import_transform: the %d-number arm stores element k of the array at storage "
+              "position k of the %s (inverse of data())" % (nlen, t), ok,
+              "; ".join(bad[:4]) or "members %s via %s%s" % ([m for (m, _v) in members], t, ctor.r["sig"]),
+              src, why="written with data() and read back with a different element order, the "
+                       "transform changes (e.g. a transposed rotation)")
+    cx.floor("transform arms interpreted", done, 2)
+    # data() is the contiguous storage from the first member on, of the declared extent
+    wsrc = ['#include "orange/transform/VariantTransform.hh"', "using namespace celeritas;"]
+    for t, nlen in sorted(arms.items()):
+        if nlen:
+            wsrc.append("static_assert(sizeof(%s) == %d * sizeof(real_type), \"W:size-%s\");" % (t, nlen, t))
+    failed, other = witness.compile_witness("\n".join(wsrc) + "\n", "src/orange/OrangeTypes.cc")
+    if other:
+        raise AnalysisBroken("C19 layout witness does not compile: %s" % other[:3])
+    for t, nlen in sorted(arms.items()):
+        if not nlen:
+            continue
+        cx.ob(rule, "%s is exactly %d reals of storage (no padding, no other member)" % (t, nlen),
+              ("size-" + t) not in failed, "static_assert(sizeof(%s) == %d*sizeof(real_type))" % (t, nlen),
+              "src/orange/transform/%s.hh" % t,
+              why="data() hands out N consecutive reals starting at the first member")
+        for g in db.get(C + "%s::data" % t):
+            first = None
+            for n in walk(g.r.get("ast") or {}):
+                if n.get("k") == "MemberExpr" and first is None:
+                    first = n.get("name")
+            lits = [int(n.get("cval", n.get("val"))) for n in walk(g.r.get("ast") or {})
+                    if n.get("k") == "IntegerLiteral" or "cval" in n]
+            ctors = [c for c in db.get(C + "%s::%s" % (t, t)) if c.r.get("inits")]
+            m0 = ctors[0].r["inits"][0]["member"] if ctors else None
+            ok = first is not None and first == m0 and max(lits or [0]) == nlen and \
+                all(v in (0, nlen) for v in lits)
+            cx.ob(rule, "%s::data() is {&first member's first element, %d}" % (t, nlen), ok,
+                  "member %s, literals %s" % (first, sorted(set(lits))), short(g.loc),
+                  why="the written array is the storage in declaration order")
